@@ -59,6 +59,10 @@ StringDictionaryHASHRPDACBlocks::StringDictionaryHASHRPDACBlocks(
   std::mutex m;
   std::condition_variable cv;
   uint parts_done = 0;
+#ifdef LIBCSD_VERIF
+  if (libcsd_verif_blocks_hook)
+    libcsd_verif_blocks_hook(&wpool, &m, &cv);
+#endif
 
   while (it->hasNext()) {
     unsigned int next_string_length;
